@@ -93,20 +93,18 @@ theorem rank_one_col {t00 t01 t02 t03 t11 t12 t13 t22 t23 t33 : ℝ} (hpos : 0 <
     ⟨Real.sqrt t00, Real.sqrt_pos.2 hpos, Real.mul_self_sqrt hpos.le⟩
   have hs0 : s ≠ 0 := ne_of_gt hs
   have h00 : t00 ≠ 0 := ne_of_gt hpos
+  have key : ∀ x y : ℝ, 4 * (x / (2 * s) * (y / (2 * s))) = x * y / t00 := by
+    intro x y; rw [← hss]; field_simp; ring
   refine ⟨t00 / (2 * s), t01 / (2 * s), t02 / (2 * s), t03 / (2 * s), ?_, ?_, ?_, ?_, ?_, ?_, ?_, ?_, ?_, ?_⟩
-  all_goals
-    field_simp
-    rw [show s ^ 2 = t00 by rw [sq, hss]]
-  · ring
-  · ring
-  · ring
-  · ring
-  · linear_combination h11
-  · linear_combination h12
-  · linear_combination h13
-  · linear_combination h22
-  · linear_combination h23
-  · linear_combination h33
+  all_goals rw [key, div_eq_iff h00]
+  all_goals first
+    | ring1
+    | linear_combination h11
+    | linear_combination h12
+    | linear_combination h13
+    | linear_combination h22
+    | linear_combination h23
+    | linear_combination h33
 
 theorem quat_surjective (R : Mat3 ℝ) (hR : IsRotation R) :
     ∃ q : Vec4 ℝ, Vec4.dot q q = 1 ∧ Gen.quat_rot q.w q.x q.y q.z = R := by
